@@ -268,7 +268,7 @@ func gap(a, b bbox) float64 {
 }
 
 func secPack(r *vlib.Run) {
-	r.Section("pack", r.N(1200, 8000), vlib.SectionOpts{}, func(c *vlib.Case) {
+	r.Section("pack", r.N(800, 3000), vlib.SectionOpts{}, func(c *vlib.Case) {
 		rng := c.Rng
 		k := 1 + rng.Intn(12)
 		if rng.Intn(5) == 0 {
@@ -424,7 +424,7 @@ func secPack(r *vlib.Run) {
 // BuildAutomaticUVMap
 
 func secAtlas(r *vlib.Run) {
-	r.Section("atlas", r.N(500, 3000), vlib.SectionOpts{}, func(c *vlib.Case) {
+	r.Section("atlas", r.N(350, 1200), vlib.SectionOpts{}, func(c *vlib.Case) {
 		rng := c.Rng
 		var s *surface
 		for try := 0; try < 4 && s == nil; try++ {
